@@ -258,6 +258,9 @@ func (w *World) processCommits() {
 	for _, ci := range list {
 		w.checkCommit(ci)
 	}
+	if len(list) > 0 && len(w.plan.ScriptChain) > 0 {
+		w.applyScriptChain()
+	}
 	w.mu.Lock()
 	oq := w.outcomeQ
 	w.outcomeQ = nil
@@ -617,7 +620,6 @@ func (w *World) recordOutcome(ps *pairState, err error) {
 	w.stat("outcome_"+name, 1)
 	if err == nil {
 		w.okOutcomes++
-		w.applyScriptChain()
 	}
 	nData := 0
 	for _, ci := range ps.callCommits {
